@@ -409,6 +409,22 @@ def directed_calls():
                          ("b a, b c, a c d -> d b", [(3, 2), (3, 4), (2, 4, 5)])]:
         for backend in (None, "numpy.numpylike", "numpy.einsum"):
             yield {"op": "dot", "family": "dot", "desc": desc, "shapes": shapes, "kwargs": {}, "note": ["directed", "batch-order"], "backend": backend}
+    # several concatenated axes in one output / input (the order in which the blocks are composed and split), three blocks,
+    # a batched and flattened block matrix
+    for desc, shapes, kw in [("a c, a d, b c, b d -> (a + b) (c + d)", [(2, 3), (2, 2), (3, 3), (3, 2)], {}),
+                             ("a c, a d, b c, b d -> (a + b) (c + d)", [(2, 2), (2, 2), (2, 2), (2, 2)], {}),
+                             ("n a c, n a d, n b c, n b d -> n ((a + b) (c + d))", [(2, 2, 3), (2, 2, 2), (2, 3, 3), (2, 3, 2)], {}),
+                             ("(a + b) (c + d) -> a c, a d, b c, b d", [(5, 5)], {"a": 2, "c": 3}),
+                             ("a, b, c -> (a + b + c)", [(2,), (3,), (4,)], {}),
+                             ("a x, b x, c x -> x (a + b + c)", [(2, 2), (3, 2), (1, 2)], {}),
+                             ("(a + b + c) -> c, b, a", [(6,)], {"a": 1, "b": 2}),
+                             ("a c, b c, a d -> (a + b) c, a (c + d)", [(2, 3), (1, 3), (2, 2)], {})]:
+        yield {"op": "id", "family": "id", "desc": desc, "shapes": shapes, "kwargs": kw, "note": ["directed", "multi-concat"]}
+    # softmax / log_softmax / logsumexp on slices of very different magnitude (a stabilising shift must be taken per slice)
+    far = np.array([[0, 1, 2, 3], [-800, -799, -798, -796], [700, 701, 699, 702]], dtype=np.float64)
+    for op, fam in (("softmax", "preserve_shape"), ("log_softmax", "preserve_shape"), ("logsumexp", "reduce")):
+        yield {"op": op, "family": fam, "desc": "a [b]", "shapes": [(3, 4)], "kwargs": {}, "note": ["directed", "slice-magnitudes"], "args": [far]}
+        yield {"op": op, "family": fam, "desc": "[b] a", "shapes": [(4, 3)], "kwargs": {}, "note": ["directed", "slice-magnitudes"], "args": [far.T.copy()]}
     for desc, shape in [("a e a d -> a d e", (2, 3, 2, 4)), ("b a c a -> a b c", (3, 2, 4, 2)), ("a b a c -> c b a", (2, 3, 2, 4)), ("a a b a -> b a", (2, 2, 3, 2))]:
         yield {"op": "id", "family": "id", "desc": desc, "shapes": [shape], "kwargs": {}, "note": ["directed", "diagonal"]}
     # every arrangement (up to renaming) of up to five axes over three names in which a name repeats: one, two and three
@@ -497,7 +513,7 @@ def run(ctx):
         unravel_tie(ctx, 120 if ctx.quick else 2500)
     directed = list(directed_calls())
     for call in directed:
-        args = gen.make_args(call, rng, "rand")
+        args = call["args"] if "args" in call else gen.make_args(call, rng, "rand")
         for backend in ((call["backend"],) if "backend" in call else (None, "numpy.numpylike")):
             st = check_call(ctx, call, backend, args)
             ctx.case(sig_of(call, backend), st in ("ok", "DIFF"))
